@@ -99,6 +99,9 @@ def analyse_class(chk, ctx, ci, axioms=None):
            (env['fmt'], T.show(env['type']), T.show(env['channel']),
             T.show(env['size'])[:100], env['end']),
            detail={'payload_length': T.show(plen)[:200]}, site=site)
+    okc, whyc = L.channel_acceptance(e['outs'])
+    if not okc:
+        chk.ob('C01.E', q + ' channels', False, whyc, site=site)
     payload = env['payload']
     # index prefix
     idx_part = payload[0] if payload else None
